@@ -38,9 +38,18 @@ package messaging
 //@   loop 0: backedge where = upd(where, k, athead(len(portList)))
 //@   loop 0: invariant fresh(portList) && off(portList) == 0
 //@   loop 0: invariant forall i in 0..len(portList) :: (portList[i] in po.ports) && visited(portList[i]) && where[portList[i]] == i
+//@   label C03.Ports.complete.collect
 //@   loop 0: invariant forall n int :: visited(n) ==> 0 <= where[n] && where[n] < len(portList) && portList[where[n]] == n
 //@   loop 1: invariant -1 <= rangeindex && rangeindex < len(portList) && len(list) == rangeindex + 1 && fresh(list) && fresh(portList)
+//@   label C03.Ports.deterministic.atloop
 //@   loop 1: invariant forall i in 0..len(portList) - 1 :: strlt(portList[i], portList[i+1])
+// ground instance of the invariant above (so that a broken order is refuted with a counterexample, not merely undecided)
+//@   label C03.Ports.deterministic.atloop.first2
+//@   loop 1: invariant len(portList) >= 2 ==> strlt(portList[0], portList[1])
 //@   loop 1: invariant forall i in 0..len(portList) :: (portList[i] in po.ports)
+//@   label C03.Ports.complete.atloop
 //@   loop 1: invariant forall n int :: (n in po.ports) ==> 0 <= Strings_inv[where[n]] && Strings_inv[where[n]] < len(portList) && portList[Strings_inv[where[n]]] == n
+//@   label C03.Ports.values.atloop
 //@   loop 1: invariant forall i in 0..rangeindex + 1 :: list[i] == po.ports[portList[i]]
+//@   label C03.Ports.values.atloop.last
+//@   loop 1: invariant rangeindex >= 0 ==> list[rangeindex] == po.ports[portList[rangeindex]]
